@@ -86,9 +86,16 @@ Next == UNCHANGED tid
 Spec == Init /\ [][Next]_tid
 
 Judge(name, ok) == ok \/ PrintT(ToJson([verdict |-> name, tid |-> tid]))
+\* number of ways of choosing one pivot per sampled annotator (capped): beyond AmbigCap the choices are not enumerated and the
+\* clauses about the pivots are not judged on that record (it is reported as "Ambiguous", which the harness counts, not alarms)
+AmbigCap == 20000
+RECURSIVE Ways(_, _)
+Ways(k, piv) == IF k > N THEN 1
+                ELSE LET w == Ways(k + 1, piv) IN Min2(AmbigCap + 1, w * (IF piv[k] = {} THEN 1 ELSE Cardinality(piv[k])))
 Verdicts ==
     LET piv == [k \in 1..N |-> Pivots(k)]
-        all == Seqs(1, {<<R.lo, R.hi>>}, <<>>, piv)
+        amb == Ways(1, piv) > AmbigCap
+        all == IF amb THEN {} ELSE Seqs(1, {<<R.lo, R.hi>>}, <<>>, piv)
         good == {q \in all : \A k \in 1..N : q[k][3]}                \* each pivot in what was still available (else: in the bounds)
         base == IF good # {} THEN good ELSE all
     IN
@@ -96,11 +103,12 @@ Verdicts ==
     /\ Judge("ObsAnnotatorCount", ObsAnnotatorCount)
     /\ Judge("ObsNonEmpty", ObsNonEmpty)
     /\ Judge("ObsTranslation", ObsTranslation(piv))
-    /\ Judge("ObsPivotFromAvail", good # {})
-    /\ Judge("ObsPivotInBounds", ObsPivotInBounds(base))
-    /\ Judge("ObsPivotInBoundsStrict", ObsPivotInBoundsStrict(base))
-    /\ Judge("ObsIntPivot", ObsIntPivot(base))
-    /\ Judge("ObsSeparated", ObsSeparated(base))
-    /\ Judge("ObsSeparatedUpToTruncation", ObsSeparatedUpToTruncation(base))
-    /\ Judge("ObsPivotLogged", ObsPivotLogged(base))
+    /\ Judge("Ambiguous", ~amb)
+    /\ Judge("ObsPivotFromAvail", amb \/ good # {})
+    /\ Judge("ObsPivotInBounds", amb \/ ObsPivotInBounds(base))
+    /\ Judge("ObsPivotInBoundsStrict", amb \/ ObsPivotInBoundsStrict(base))
+    /\ Judge("ObsIntPivot", amb \/ ObsIntPivot(base))
+    /\ Judge("ObsSeparated", amb \/ ObsSeparated(base))
+    /\ Judge("ObsSeparatedUpToTruncation", amb \/ ObsSeparatedUpToTruncation(base))
+    /\ Judge("ObsPivotLogged", amb \/ ObsPivotLogged(base))
 =============================================================================
